@@ -44,7 +44,7 @@ Theorem compat_conservative : forall T attribute frs,
   (forall fr t, In fr frs -> In t (filter not_nop (symbols fr)) -> not_legacy t) ->
   decoder T (render_frags frs) true attribute = decoder T (render_frags frs) false attribute.
 Proof.
-  intros T attribute frs Hne H Hl. unfold decoder, decode_graph.
+  intros T attribute frs Hne H Hl. unfold decoder, decoder_c, decode_graph_c.
   rewrite (tokenize_all_true frs Hne H), (tokenize_all_false frs Hne H).
   assert (E : map (fun fr => modernize_all (filter not_nop (symbols fr)) None) frs
               = map (fun fr => (filter not_nop (symbols fr), @None exn)) frs).
@@ -63,7 +63,7 @@ Theorem compat_is_modernization : forall T attribute frs frs',
 Proof.
   intros T attribute frs frs' Hne H H' H2.
   assert (Hne' : frs' <> []) by (intro; subst; inversion H2; congruence).
-  unfold decoder, decode_graph.
+  unfold decoder, decoder_c, decode_graph_c.
   rewrite (tokenize_all_true frs Hne H), (tokenize_all_false frs' Hne' H').
   assert (E : map (fun fr => modernize_all (filter not_nop (symbols fr)) None) frs
               = map (fun fr => (filter not_nop (symbols fr), @None exn)) frs').
@@ -95,13 +95,13 @@ Lemma derive_rejects : forall T bad aidx fuel idx sym rest m maxd state prev rin
   derive T bad aidx (S fuel) ((idx, sym) :: rest) m maxd state prev rings astack nd = Err DecoderError.
 Proof.
   intros T bad aidx fuel idx sym rest m maxd state prev rings astack nd Ho Hb.
-  cbn [derive]. rewrite Hb. cbn [negb]. unfold outside_grammar in Ho.
+  unfold derive. cbn [derive_c]. rewrite Hb. cbn [negb]. unfold outside_grammar in Ho.
   destruct (is_branch_like sym).
   - destruct (process_branch_symbol sym); [discriminate|reflexivity].
   - destruct (is_ring_like sym).
     + destruct (process_ring_symbol sym); [discriminate|reflexivity].
     + destruct (is_eps_like sym); [discriminate|].
-      unfold process_atom_symbol. destruct (process_atom_nocache sym) as [[x|]|e]; try discriminate.
+      unfold process_atom_symbol_c. destruct (process_atom_nocache sym) as [[x|]|e]; try discriminate.
       reflexivity.
 Qed.
 
